@@ -27,7 +27,9 @@ LEVEL_NOTE = ("Partial: a node whose applied entries were rolled back by a later
               "return any committed prefix. Trusted: Coq kernel, extraction, the Go harness (see C01).")
 TRUSTED = ["in-process replacement of gRPC (see C01)", "value ids carried in the put values identify log entries; version ids follow db.go's counter"]
 ASSUMES = ["fixed ensemble and consistent_run for the 'acknowledged writes are never rolled back' theorem (see C01)"]
-RULE = ("trace: as C01, with longer client histories; non-trivial = at least one acknowledged write and one read checked; distinct by action list")
+RULE = ("trace: as C01, with longer client histories; non-trivial = at least one acknowledged write and one read checked; distinct by action list; "
+        "c02scan: one RangeScan/List/index List/index RangeScan over 500..4000 keys of a real rf=1 leader with atomic multi-key writes awaited inside the stream "
+        "callback at records 0/999/1000/1001/N/2/N-1 (the iterator lifetime of a streamed read is outside the model and is covered by this leg); distinct by (kind, N, trigger set)")
 LEGS = [
     {"name": "cluster", "harness": "cluster", "model": "cluster", "n_quick": 52, "n_thorough": 4000,
      "corpus": "corpus/cluster", "timeout": 900, "timeout_thorough": 6000, "args": ["-mode", "c02"]},
@@ -36,4 +38,10 @@ LEGS = [
     # on the wire); compared with the extracted write_path, verdict write:resent-after-send
     {"name": "client-wsend", "harness": "client", "model": "client", "n_quick": 40, "n_thorough": 1500,
      "corpus": "corpus/client", "args": ["-mode", "wsend"], "timeout": 600, "timeout_thorough": 3000},
+    # one read over many records is one atomic observation (harness/cmd/db/c02_scan.go; theorem c02_scan_is_atomic_snapshot):
+    # a real rf=1 LeaderController with 500..4000 keys, RangeScan / List / index List / index RangeScan with writes awaited
+    # inside the stream callback at records 0, 999, 1000, 1001, N/2, N-1; verdicts scan:not-atomic-snapshot,
+    # scan:index-range-scan-not-atomic (open finding), scan:failed
+    {"name": "c02scan", "harness": "db", "model": None, "n_quick": 40, "n_thorough": 1500,
+     "args": ["-mode", "c02scan"], "timeout": 600, "timeout_thorough": 3000},
 ]
